@@ -39,7 +39,7 @@ def design(ctx, notes):
     states = trans = 0
     per_cfg, cov = {}, {}
     for cfg, coverage, need in runs:
-        mc = tlc.run(ctx, "Notices", cfg, workers=w, coverage=coverage, timeout=ctx.pick(900, 3000),
+        mc = tlc.run(ctx, "Notices", cfg, spec_dir=_SPEC["dir"], workers=w, coverage=coverage, timeout=ctx.pick(900, 3000),
                      name="tlc_" + cfg[:-4], heap=ctx.pick("6g", "12g"))
         if not mc.ok:
             # a counterexample of the *spec*: a design problem to triage, not a violation of the real code
@@ -55,7 +55,7 @@ def design(ctx, notes):
     fired = {}
     for cfg, kind, name in controls:
         try:
-            res = tlc.run(ctx, "Notices", cfg, workers=ctx.pick(4, 8), timeout=900, name="tlc_" + cfg[:-4])
+            res = tlc.run(ctx, "Notices", cfg, spec_dir=_SPEC["dir"], workers=ctx.pick(4, 8), timeout=900, name="tlc_" + cfg[:-4])
             got_kind, got_name, gen = res.kind, res.name, res.generated
         except InfraError:
             # lib/tlc.py does not know this TLC's wording "Temporal property X was violated": read the raw output
@@ -75,6 +75,20 @@ def design(ctx, notes):
         fired[cfg] = "%s %s violated after %d states (expected)" % (kind, got_name, gen)
         ctx.log("control %s: %s" % (cfg, fired[cfg]))
     return states, trans, per_cfg, cov, fired
+
+
+_SPEC = {"dir": common.SPEC}
+
+
+def private_spec(ctx):
+    """TLC is run from a private copy of *our* spec files: lib/tlc.py copies the whole shared spec directory per
+    run, which races with other builders adding/removing their files."""
+    import glob
+    import shutil
+    d = ctx.subdir("spec")
+    for f in glob.glob(os.path.join(common.SPEC, "*Notices*")):
+        shutil.copy(f, d)
+    _SPEC["dir"] = d
 
 
 def compare_replay(scripts, expected, events):
@@ -119,6 +133,7 @@ def prefix(script, nsteps):
 
 def run(ctx):
     notes, violations = [], []
+    private_spec(ctx)
     pool = concurrent.futures.ThreadPoolExecutor(max_workers=2)
     f_ext = pool.submit(goharness.ext_test_build, ctx, "notices")
     f_dmn = pool.submit(goharness.overlay_test_build, ctx, "daemon", [DAEMON_OVERLAY])
@@ -137,7 +152,7 @@ def run(ctx):
     if not ctx.quick:      # quick binds options.Time additions through the I->T histories only
         simcfgs.append(("Notices_sim_addat.cfg", 1000, 30))
     for cfg, num, depth in simcfgs:
-        res = tlc.run(ctx, "Notices", cfg, simulate={"num": num, "file": True}, depth=depth, seed=ctx.seed, workers=1,
+        res = tlc.run(ctx, "Notices", cfg, spec_dir=_SPEC["dir"], simulate={"num": num, "file": True}, depth=depth, seed=ctx.seed, workers=1,
                       timeout=ctx.pick(600, 2400), name="sim_" + cfg[:-4])
         if not res.ok:
             raise InfraError("simulation of %s failed: %s\n%s" % (cfg, res.summary(), common.tail(res.out, 30)))
@@ -205,7 +220,7 @@ def run(ctx):
     for name, cfg, evs in (("main", "TraceNotices.cfg", main), ("addat", "TraceNotices_addat.cfg", addat)):
         path = os.path.join(d, name + ".ndjson")
         common.write_ndjson(path, evs)
-        tv = tlc.validate_trace(ctx, "TraceNotices", cfg, path, timeout=ctx.pick(900, 3000), name="trace_" + name)
+        tv = tlc.validate_trace(ctx, "TraceNotices", cfg, path, spec_dir=_SPEC["dir"], timeout=ctx.pick(900, 3000), name="trace_" + name)
         if tv["accepted"]:
             n_validated += len({e["case"] for e in evs})
             continue
@@ -257,7 +272,7 @@ def run(ctx):
             "real_histories_I_to_T": len(scripts) + len(scripts_addat), "daemon_cases": len(dcases),
             "real_events": len(allev), "real_execution_stats": stats,
             "tlc_configs": per_cfg, "negative_design_controls": fired, "action_coverage": cov,
-            "tlc_constants": {"wide": "users {1000,1001}+public, 2 types, 2 keys, ra {0,2}, clock {1,3,5}, 2 clients x 3 filter pairs, <=%d adds" % ctx.pick(2, 3),
+            "tlc_constants": {"wide": "users {1000,1001}+public, 2 types, 2 keys, ra {0,2}, clock {1,3,5}, 2 clients x %s filter pair(s), <=%d adds" % (ctx.pick(1, 3), ctx.pick(2, 3)),
                               "deep/narrow": "public(+1 user), 1 type, 2 keys, ra {0,2}, clock {1,3,5[,7]}, 1-2 clients, <=%s adds" % ctx.pick("5", "4/6/6"),
                               "waiters": "1 user+public, 1 type, 2 keys, 2 clients, <=%d adds; liveness <=%d adds" % (ctx.pick(2, 3), ctx.pick(2, 3))},
             "samples": samples,
@@ -353,7 +368,7 @@ def selftest_corruptions(ctx, events):
     for what, i, m in muts:
         p = os.path.join(ctx.subdir("selftest"), "t.ndjson")
         common.write_ndjson(p, m)
-        tv = tlc.validate_trace(ctx, "TraceNotices", "TraceNotices.cfg", p, timeout=900, name="trace_selftest")
+        tv = tlc.validate_trace(ctx, "TraceNotices", "TraceNotices.cfg", p, spec_dir=_SPEC["dir"], timeout=900, name="trace_selftest")
         if tv["accepted"]:
             raise InfraError("selftest: corrupted trace (%s at line %d) was accepted -- binding is not effective" % (what, i + 1))
         notes.append("selftest: %s at line %d -> rejected at line %s (%s)" % (what, i + 1, tv["stuck_line"], tv["invariant"] or "step"))
